@@ -46,6 +46,9 @@ CHECKS = {
     "C07": ("exploration", E1 + " (cross product of test kinds, representations, options and grids on spectra of an independent model implementation)",
             "All six linear test implementations and cnls x {Z, Y} x capacitance x inductance x num_RC x log_F_ext x six frequency grids x sign patterns x magnitude scales over six decades (24k quick / 119k thorough runs): the spectrum is computed by an independent implementation of the test's own model (eq. 12 time constants, Fig. 1 / Fig. 13 topology); residuals must vanish (1e-6; cnls 1e-3), the fitted time constants must equal the reference ones and every parameter the spectrum is sensitive to must be recovered to 1e-4 where the weighted design matrix is well conditioned.",
             "Only well-posed configurations (>= 2 data points per unknown) are generated; real-valued parameters and frequencies are covered on the declared grid only.", "DESIGN.md section 4, C07"),
+    "C09": ("exploration", E1 + " (metamorphic pairs: impedance scaling, frequency scaling, point reversal)",
+            "Noisy mock and ladder spectra x six linear tests (+cnls) x {Z, Y} x capacitance x inductance x num_RC x log_F_ext x 13 transformations (|Z| and f scaled by 1e-6..1e6 and 2^+-20, reversed order): residuals, pseudo chi-squared, time constants and model impedances of the transformed run must equal the rescaled original within frozen, tiered tolerances (0 for reversal, 1e-6 without C/L columns and for |Z| scaling of least-squares variants, 1e-3 otherwise). Exhaustive over the declared grid.",
+            "Tolerances were calibrated once on the unchanged tree and frozen; num_RC is kept in the well-conditioned range; the un-equilibrated w columns are a recorded known finding keyed by the measured un-normalised condition number.", "DESIGN.md section 4, C09"),
 }
 
 NOT_YET = "check not built yet in this round (planned, see DESIGN.md section 4)"
